@@ -21,11 +21,12 @@ type histState struct {
 }
 
 type histKeys struct {
-	content bool // Len IsEmpty Index* Front Back
-	cap     bool // Cap Avail IsFull
-	nest    bool // CanNest IsNesting
-	opts    bool // option getters, raw option word, string settings, log levels
-	fifo    bool
+	content  bool // Len IsEmpty Index* Front Back
+	cap      bool // Cap Avail IsFull
+	nest     bool // CanNest IsNesting
+	opts     bool // option getters, raw option word, string settings, log levels
+	fifo     bool
+	condFull bool // Condition: validity, rendering, Err
 }
 
 func newHistState(x *Exec) *histState {
@@ -270,7 +271,7 @@ func (st *histState) stepModel(x *Exec, op Op, out Outcome, k histKeys) string {
 						break
 					}
 				} else if a.W.C[i] != nil && a.W.C[i].Live {
-					if d := cmpCond(x, i, a.W.C[i]); d != "" {
+					if d := cmpCond(x, i, a.W.C[i], k); d != "" {
 						why = w.objs[i].name + ": " + d
 						break
 					}
@@ -377,4 +378,27 @@ func touches(op Op, i int) bool {
 		}
 	}
 	return false
+}
+
+// mismatchSite derives the site part of a model-mismatch signature from the
+// description of the difference: the getter that disagreed, or the op for
+// differences in results and content.
+func mismatchSite(op Op, why string) string {
+	if i := strings.Index(why, ": "); i >= 0 && i < 4 {
+		why = why[i+2:]
+	}
+	if strings.HasPrefix(why, "returned ") {
+		return op.M + ":result"
+	}
+	name := why
+	if i := strings.IndexAny(name, "(= "); i > 0 {
+		name = name[:i]
+	}
+	switch name {
+	case "Len", "IsEmpty", "Index", "Front", "Back":
+		return op.M + ":content"
+	case "encapsulation", "symbol":
+		return op.M + ":" + name
+	}
+	return name
 }
